@@ -113,6 +113,21 @@ func VerifH_C28_misc_logs() {
 	}
 	check((&certificateMsg{certificates: certs}).MakeLog())
 	check((&certificateMsgTLS13{certificate: Certificate{Certificate: certs}}).MakeLog())
+	// the parsed certificates attached after verification sit next to their own raw bytes
+	l := (&certificateMsg{certificates: certs}).MakeLog()
+	var parsed []*x509.Certificate
+	for _, raw := range certs {
+		parsed = append(parsed, &x509.Certificate{Raw: raw})
+	}
+	val := &x509.Validation{}
+	l.addParsed(parsed, val)
+	if len(certs) >= 1 {
+		vr.Assert(l.Certificate.Parsed == parsed[0], "the leaf entry carries the parsed leaf")
+	}
+	for i := range l.Chain {
+		vr.Assert(l.Chain[i].Parsed == parsed[i+1], "chain entry i carries the parsed form of wire certificate i+1")
+	}
+	vr.Assert(l.Validation == val, "validation result attached")
 	vd := c30bs("vd", 0, 3)
 	vr.Assert(bytes.Equal((&finishedMsg{verifyData: vd}).MakeLog().VerifyData, vd), "finished verify data")
 	st := &ClientSessionState{sessionTicket: c30bs("ticket", 0, 3), lifetimeHint: vr.U32("hint")}
